@@ -283,17 +283,18 @@ def grad_diff(ans, a, n=1, axis=-1):
     sl2 = [slice(None)] * nd
     sl2[axis] = slice(-1, None)
 
-    def undiff(g):
+    def undiff(g, length):
+        # length: extent of the differenced axis before this difference was taken
         if g.shape[axis] > 0:
             return anp.concatenate((-g[tuple(sl1)], -anp.diff(g, axis=axis), g[tuple(sl2)]), axis=axis)
         shape = list(ans_shape)
-        shape[axis] = 1
-        return anp.zeros(shape)
+        shape[axis] = length
+        return anp.zeros(shape, dtype=g.dtype)
 
     def helper(g, n):
         if n == 0:
             return g
-        return helper(undiff(g), n - 1)
+        return helper(undiff(g, max(anp.shape(a)[axis] - n + 1, 0)), n - 1)
 
     return lambda g: helper(g, n)
 
